@@ -1,0 +1,50 @@
+//go:build verif
+// +build verif
+
+package gf2p16
+
+// Exports of the portable kernels (compiled on every platform), for
+// verification harnesses only.
+
+// VerifMulByteSliceLEGeneric is the portable byte-wise kernel.
+func VerifMulByteSliceLEGeneric(c T, in, out []byte) {
+	mulByteSliceLEGeneric(c, in, out)
+}
+
+// VerifMulAndAddByteSliceLEGeneric is the portable byte-wise kernel.
+func VerifMulAndAddByteSliceLEGeneric(c T, in, out []byte) {
+	mulAndAddByteSliceLEGeneric(c, in, out)
+}
+
+// VerifMulSliceGeneric is the portable word-wise kernel.
+func VerifMulSliceGeneric(c T, in, out []T) {
+	mulSliceGeneric(c, in, out)
+}
+
+// VerifMulAndAddSliceGeneric is the portable word-wise kernel.
+func VerifMulAndAddSliceGeneric(c T, in, out []T) {
+	mulAndAddSliceGeneric(c, in, out)
+}
+
+// VerifMulByteSliceLEPlatformLE is the little-endian cast path used
+// by the non-amd64 dispatch.
+func VerifMulByteSliceLEPlatformLE(c T, in, out []byte) {
+	mulSliceGeneric(c, castByteToTSlice(in), castByteToTSlice(out))
+}
+
+// VerifMulAndAddByteSliceLEPlatformLE is the little-endian cast path
+// used by the non-amd64 dispatch.
+func VerifMulAndAddByteSliceLEPlatformLE(c T, in, out []byte) {
+	mulAndAddSliceGeneric(c, castByteToTSlice(in), castByteToTSlice(out))
+}
+
+// VerifMulSlice is the platform's word-slice kernel used by Matrix.
+func VerifMulSlice(c T, in, out []T) {
+	mulSlice(c, in, out)
+}
+
+// VerifMulAndAddSlice is the platform's word-slice kernel used by
+// Matrix.
+func VerifMulAndAddSlice(c T, in, out []T) {
+	mulAndAddSlice(c, in, out)
+}
